@@ -177,7 +177,15 @@ func bstoreOne(dir string, tr *core.Tracer, sc *bsScen) error {
 		}
 		return live
 	}
-	for _, op := range sc.Ops {
+	// the empty block comes in both Go forms: every other call hands it over as a nil slice, the rest as []byte{}
+	dataOf := func(id string, opi int) []byte {
+		d := bsData[id]
+		if len(d) == 0 && opi%2 == 1 {
+			return nil
+		}
+		return d
+	}
+	for opi, op := range sc.Ops {
 		ev := core.Ev{"c": op.C, "x": op.X, "r": "", "d": "none", "size": -1, "cideq": true, "has": false, "b": op.B, "din": op.D, "c2": op.C2, "d2in": op.D2}
 		var c cid.Cid
 		if op.Op != "hashonread" {
@@ -187,7 +195,7 @@ func bstoreOne(dir string, tr *core.Tracer, sc *bsScen) error {
 		}
 		switch op.Op {
 		case "put":
-			blk, err := blocks.NewBlockWithCid(bsData[op.D], c)
+			blk, err := blocks.NewBlockWithCid(dataOf(op.D, opi), c)
 			if err != nil {
 				return err
 			}
@@ -197,8 +205,8 @@ func bstoreOne(dir string, tr *core.Tracer, sc *bsScen) error {
 			if err != nil {
 				return err
 			}
-			b1, _ := blocks.NewBlockWithCid(bsData[op.D], c)
-			b2, _ := blocks.NewBlockWithCid(bsData[op.D2], c2)
+			b1, _ := blocks.NewBlockWithCid(dataOf(op.D, opi), c)
+			b2, _ := blocks.NewBlockWithCid(dataOf(op.D2, opi+1), c2)
 			ev["r"] = errClass(bs.PutMany(ctxOf(op.X), []blocks.Block{b1, b2}))
 		case "get":
 			blk, err := bs.Get(ctxOf(op.X), c)
